@@ -240,6 +240,7 @@ PROPS["C11"] = dict(
 
 PROPS["C14"] = dict(
     level="proof",
+    translators=["guards.py"],
     technique="Lean 4 theorems (refused <=> incompatible for the transcribed guards of apply/time_evolve, ax_plus_y, the "
               "constructor and the propagator arguments) + exhaustive run of the incompatible-argument product and a "
               "hostile-value battery in guarded child interpreters (also under python -O)",
